@@ -60,6 +60,11 @@ pub fn table() -> Vec<(&'static str, String, Want)> {
         ("comparing-interfaces-of-different-dynamic-types-is-false", with("type E interface {\n    isE()\n}\n\ntype A struct {\n    _0 []int32\n}\n\nfunc (_ A) isE() {}\n\ntype B struct {}\n\nfunc (_ B) isE() {}\n", "    var x E = A{_0: nil}\n    var y E = B{}\n    if x == y {\n        p(\"eq\")\n    } else {\n        p(\"ne\")\n    }\n"), Want::Ok("ne\n")),
         ("comparing-interfaces-holding-comparable-structs", with("type E interface {\n    isE()\n}\n\ntype A struct {\n    _0 int32\n}\n\nfunc (_ A) isE() {}\n", "    var x E = A{_0: 1}\n    var y E = A{_0: 1}\n    var z E = A{_0: 2}\n    if x == y {\n        p(\"eq\")\n    }\n    if x == z {\n        p(\"eq2\")\n    }\n"), Want::Ok("eq\n")),
         ("comparing-funcs", with("func f() int32 {\n    return 1\n}\n", "    if f == f {\n        p(\"eq\")\n    }\n"), Want::Reject("operand")),
+        // --- string literal escapes (spec: Rune literals, String literals)
+        ("unicode-escapes-denote-utf8", m("    p(\"a\\u00e9b\\U0001F642c\\ufeffd\")\n"), Want::Ok("a\u{e9}b\u{1F642}c\u{feff}d\n")),
+        ("octal-and-hex-escapes-denote-bytes", m("    p(\"\\101\\x42\")\n"), Want::Ok("AB\n")),
+        ("surrogate-half-escape-is-illegal", m("    p(\"\\ud800\")\n"), Want::Reject("syntax")),
+        ("octal-escape-above-255-is-illegal", m("    p(\"\\400\")\n"), Want::Reject("syntax")),
         // --- calls and returns (spec: Calls; Return statements; Terminating statements)
         ("too-many-arguments", with("func f(a int32) int32 {\n    return a\n}\n", "    p(i2s(f(1, 2)))\n"), Want::Reject("call")),
         ("too-few-arguments", with("func f(a int32, b int32) int32 {\n    return a + b\n}\n", "    p(i2s(f(1)))\n"), Want::Reject("call")),
